@@ -79,6 +79,10 @@ def gen(rng, tier):
     config.append('%s/gin.singleton.constructor = @mk' % k)
   ctor_yields = rng.randint(0, 3)
   mk_kind = rng.choice(['tok', 'tok', 'empty_list', 'falsy'])
+  # fault injection: the first construction attempt(s) of one singleton raise
+  ctor_fault = None
+  if rng.random() < 0.3:
+    ctor_fault = {'key': rng.choice(KEYS), 'times': rng.choice([1, 1, 2])}
   phases = []
   for _ in range(1 if rng.random() < 0.7 else 2):
     nthreads = rng.randint(2, 4)
@@ -116,6 +120,7 @@ def gen(rng, tier):
                    'clear_after': rng.random() < 0.6})
   return {'probes': specs, 'users': users, 'config': config,
           'ctor_yields': ctor_yields, 'mk_kind': mk_kind, 'phases': phases,
+          'ctor_fault': ctor_fault,
           'opcodes': tier == 'thorough' and rng.random() < 0.25}
 
 
@@ -179,16 +184,28 @@ def _windows():
   return out
 
 
+class CtorFault(Exception):
+  """Injected: a singleton's constructor fails."""
+
+
 def _execute(case, mode, length_hints=None):
   """Runs the whole case once in the current world.  mode: 'seq' | 'sched'."""
   gin = world.gin
   log = probes.Log()
-  state = {'phase': 0}
+  state = {'phase': 0, 'faults_left': 0, 'faults_fired': 0}
+  cf = case.get('ctor_fault')
 
   def hook(name, named, args, kwargs, self_):
     s = world.CURRENT_SCHED
     tid = s.thread_state().tid if s and s.thread_state() else -1
     if name == 'mk':
+      if cf and state['faults_left'] > 0 and \
+          gin.current_scope_str() == cf['key']:
+        state['faults_left'] -= 1
+        state['faults_fired'] += 1
+        if s is not None:
+          s.yield_point('ctor')
+        raise CtorFault('injected constructor fault')
       tok = log.tok('mk')
       kind = case.get('mk_kind', 'tok')
       if kind == 'empty_list':
@@ -223,6 +240,7 @@ def _execute(case, mode, length_hints=None):
   windows = _windows()
   for pi, phase in enumerate(case['phases']):
     state['phase'] = pi
+    state['faults_left'] = cf['times'] if cf else 0
     per_thread = []
     reads = []
     deliveries = []   # (key, serial, tid)
@@ -264,7 +282,11 @@ def _execute(case, mode, length_hints=None):
                 res.append(('use', oi, user_key[op['u']]))
           except Exception as e:  # pylint: disable=broad-except
             with s.atomic():
-              res.append(('exc', oi, type(e).__name__, str(e)[:300]))
+              if isinstance(e, CtorFault):
+                # the injected fault reaches exactly the use that ran into it
+                res.append(('fault', oi))
+              else:
+                res.append(('exc', oi, type(e).__name__, str(e)[:300]))
       return program
 
     sc = phase['sched']
@@ -306,6 +328,7 @@ def _execute(case, mode, length_hints=None):
       gin.clear_config()
       gin.parse_config('\n'.join(case['config']))
   out['log'] = log
+  out['faults_fired'] = state['faults_fired']
   return out
 
 
@@ -437,7 +460,8 @@ def run(case):
       'steps': sum(got['yields']) + sum(seq['yields']),
       'inconclusive': inconclusive,
       'ops': ops,
-      'faults': {'preemption': got['switches']},
+      'faults': {'preemption': got['switches'],
+                 'singleton_constructor_raises': got.get('faults_fired', 0)},
       'probes': dict({'window.' + k: 0 for k in _windows()},
                      **{'window.' + k: n for k, n in got['window_hits'].items()}),
       'sched': {'yields': sum(got['yields']), 'switches': got['switches'],
@@ -483,3 +507,11 @@ def shrinks(case):
     c = copy.deepcopy(case)
     c['ctor_yields'] = case['ctor_yields'] - 1
     yield c
+  if case.get('ctor_fault'):
+    c = copy.deepcopy(case)
+    c['ctor_fault'] = None
+    yield c
+    if case['ctor_fault']['times'] > 1:
+      c = copy.deepcopy(case)
+      c['ctor_fault']['times'] = 1
+      yield c
